@@ -26,7 +26,7 @@ EXTRA_PROPS = {
     'C15.load_message_fds': ['C14', 'C01'],    # validator OOM is not corruption (defect 45e1f98)
     'C06.reload': ['C14', 'C19'],            # reload must keep the activation object with its pending activations (seed3 C19-1)
     'C01.hdr.load': ['C03', 'C12'],               # a known field code treated as unknown is never stripped (seed2 C03-2)
-    'C06.gate': ['C05', 'C10'],            # C10: outgoing-queue limit not applied to match-rule recipients (seed2 C10-3)                   # refused call leaves a reply slot -> second error reply later (seed2 C05-1)
+    'C06.gate': ['C05', 'C10', 'C13', 'C09'],            # C10: outgoing-queue limit not applied to match-rule recipients (seed2 C10-3)                   # refused call leaves a reply slot -> second error reply later (seed2 C05-1)
     'C12.lengths': ['C05', 'C02'],         # body length rewritten in the wrong byte order when the bus re-locks a forwarded message (seed2 C05-2)
     'C09.expect_reply': ['C13', 'C14'],    # pending-reply limit counted per callee (seed2 C13-2)
     'C09.check_reply': ['C14'],            # slot unlinked before the fallible hook allocations (seed2 C14-2)
